@@ -139,6 +139,9 @@ def _ampl(cfg, B):
         solver.step(f, B.const(1))
         y2 = f.data[0][0]
         B.ob('BDF2-recurrence:(3y2-4y1+y0)/2=z.y2', 'eq', (3 * y2 - 4 * y1 + y0[0]) / 2, z * y2)
+        solver.step(f, B.const(1))
+        y3 = f.data[0][0]
+        B.ob('BDF2-recurrence-third-step:(3y3-4y2+y1)/2=z.y3', 'eq', (3 * y3 - 4 * y2 + y1) / 2, z * y3)
 
 
 def _jac(cfg, B):
